@@ -16,12 +16,12 @@ import (
 // 1: leading dashes
 // 2: option
 // 3: =arg
-var isOptionRegex = regexp.MustCompile(`^(--?)([^=]+)(.*?)$`)
+var isOptionRegex = regexp.MustCompile(`(?s)^(--?)([^=]+)(.*?)$`)
 
 // 1: leading dashes or /
 // 2: option
 // 3: =arg or :arg
-var isOptionRegexWindows = regexp.MustCompile(`^(--?|/)([^=:]+)(.*?)$`)
+var isOptionRegexWindows = regexp.MustCompile(`(?s)^(--?|/)([^=:]+)(.*?)$`)
 
 type optionPair struct {
 	Option string
